@@ -6,7 +6,7 @@
 (* names a ndjson file of event indices consumed without judgement (used   *)
 (* by the driver to keep judging after a rejected / known-finding event).  *)
 (***************************************************************************)
-EXTENDS JField, JScalar, JStream, Json, IOUtils, TLC
+EXTENDS JField, JScalar, JStream, JHash, Json, IOUtils, TLC
 
 Rec  == ndJsonDeserialize(IOEnv.TRACE)
 SkipSeq == ndJsonDeserialize(IOEnv.SKIP)
@@ -30,6 +30,16 @@ Stateless(e) ==
     [] e.op = "decode" -> JudgeDecode(e)
     [] e.op = "encode" -> JudgeEncode(e)
     [] e.op = "insub" -> JudgeInsub(e)
+    [] e.op \in {"xmd", "xof"} -> JudgeExpand(e)
+    [] e.op = "h2f" -> JudgeH2f(e)
+    [] e.op = "okm" -> JudgeOkm(e)
+    [] e.op = "h2c" -> JudgeH2c(e)
+    [] e.op = "swu" -> JudgeSwu(e)
+    [] e.op = "iso" -> JudgeIso(e)
+    [] e.op = "iso_hom" -> JudgeIsoHom(e)
+    [] e.op = "clearh" -> JudgeClearh(e)
+    [] e.op = "map" -> JudgeMap(e)
+    [] e.op = "map2" -> JudgeMap2(e)
     [] e.op = "prod" -> \A i \in 1..Len(e.out) : InSubJ(e.g, e.out[i])
 
 IsStateful(e) == e.op \in {"cm"}
